@@ -63,7 +63,29 @@ struct plain_scheduler {
   friend bool operator!=(plain_scheduler, plain_scheduler) noexcept { return false; }
 };
 
-static std::vector<std::string> g_cur;   // events of the current execution (for the deadlock report)
+static std::vector<std::string> g_cur;   // events of the current execution (for the deadlock / crash report)
+static std::string g_partial_path;       // <log>.partial: events of an execution that died (validated as a prefix)
+extern "C" void __sanitizer_set_death_callback(void (*)(void)) __attribute__((weak));
+static void dump_partial(const char* why) noexcept {
+  static bool done = false;
+  if (done || g_partial_path.empty()) return;
+  done = true;
+  FILE* f = std::fopen(g_partial_path.c_str(), "a");
+  if (!f) return;
+  std::fprintf(f, "{\"why\":\"%s\",\"events\":[", why);
+  for (size_t i = 0; i < g_cur.size(); ++i) std::fprintf(f, "%s%s", i ? "," : "", g_cur[i].c_str());
+  std::fprintf(f, "]}\n");
+  std::fclose(f);
+}
+static void install_partial_handlers() {
+  std::set_terminate([] { dump_partial("Terminate"); vrt::die("Terminate", 73); });
+  if (__sanitizer_set_death_callback) __sanitizer_set_death_callback([] { dump_partial("Sanitizer"); vrt::log_flush(); });
+  auto h = [](int sig) { dump_partial("Crash"); vrt::on_signal(sig); };
+  signal(SIGABRT, h);
+#ifndef VRT_ASAN
+  for (int sg : {SIGSEGV, SIGBUS, SIGFPE, SIGILL}) signal(sg, h);
+#endif
+}
 static void lev(const char* e, int a, int r) {
   char buf[160];
   std::snprintf(buf, sizeof buf, "{\"e\":\"%s\",\"a\":%d,\"t\":%d,\"r\":%d}", e, a, vrt::self_id(), r);
@@ -206,7 +228,7 @@ int main(int argc, char** argv) {
       for (int t = 1; t <= 3; ++t) sc.prog[t] = parseProg(s["prog"][t - 1]);
       scns.push_back(sc); } }
   std::map<int, const Scenario*> byId; for (auto& s : scns) byId[s.id] = &s;
-  if (a.has("log")) vrt::log_open(a.str("log").c_str());
+  if (a.has("log")) { vrt::log_open(a.str("log").c_str()); g_partial_path = a.str("log") + ".partial"; install_partial_handlers(); }
   long from = a.num("from", 0), to = a.num("to", 1L << 40);
   long execs = 0, steps = 0, drift = 0, unguided = 0, obsMismatch = 0, units = 0, grants = 0, dones = 0;
   std::string firstDrift, firstMismatch;
@@ -214,8 +236,9 @@ int main(int argc, char** argv) {
 
   auto runOne = [&](const Scenario& sc, long x, long k, const std::function<vrt::RunResult(vrt::Ctl&)>& drive,
                     const json* expect) {
-    vrt::ev("{\"e\":\"Reset\",\"a\":0,\"t\":0,\"r\":%d,\"x\":%ld,\"k\":%ld,\"scn\":%d,\"sched\":%d}", sc.ver, x, k, sc.id, sc.sched);
     g_cur.clear();
+    { char hb[200]; std::snprintf(hb, sizeof hb, "{\"e\":\"Reset\",\"a\":0,\"t\":0,\"r\":%d,\"x\":%ld,\"k\":%ld,\"scn\":%d,\"sched\":%d}", sc.ver, x, k, sc.id, sc.sched);
+      g_cur.push_back(hb); vrt::ev("%s", hb); }
     auto w = makeWorld(sc);
     vrt::RunResult rr;
     {
@@ -233,7 +256,7 @@ int main(int argc, char** argv) {
         vrt::ev("{\"e\":\"Deadlock\",\"a\":0,\"t\":0,\"r\":-1,\"sched\":%s,\"sites\":%s}", s.c_str(), sites.c_str());
         vrt::log_flush();
         std::string evs = "[";
-        for (auto& e : g_cur) { if (evs.size() > 1) evs += ","; evs += e; }
+        for (size_t i = 1; i < g_cur.size(); ++i) { if (evs.size() > 1) evs += ","; evs += g_cur[i]; }
         evs += "]";
         if (a.has("log")) { FILE* df = std::fopen((a.str("log") + ".dl").c_str(), "a");
           if (df) { std::fprintf(df, "{\"x\":%ld,\"scn\":%d,\"k\":%ld,\"mode\":\"%s\",\"level\":%d,\"sites\":%s,\"sched\":%s,\"events\":%s}\n",
